@@ -2585,6 +2585,15 @@ hsStateDetermined:
             fragLen = *c << 16; c++;
             fragLen += *c << 8; c++;
             fragLen += *c; c++;
+            if (fragLen > (uint32) (end - c))
+            {
+                /* The fragment (or the whole message, if it is not
+                   fragmented) is in this record: it is copied and hashed
+                   from here by the length it claims */
+                ssl->err = SSL_ALERT_DECODE_ERROR;
+                psTraceErrr("DTLS fragment_length exceeds the record\n");
+                return MATRIXSSL_ERROR;
+            }
             if (fragLen != hsLen)
             {
 /*
